@@ -19,6 +19,7 @@ class RemovalMonitor(Monitor):
         self.new = []
         self.voided = {}  # vid -> True for orders on removed runners
         self.seen_factor_keys = {}  # (sel, factor) -> set(mid): same removal in several markets
+        self.reduced = {}  # vid -> order whose fills were reduced by a removal
 
     def on_before_matching(self, market):
         mid = market.market_id
@@ -89,6 +90,8 @@ class RemovalMonitor(Monitor):
                 elif f is not None and f >= 2.5:
                     for fr in exp:
                         fr[1] = reduce_price(fr[1], f)
+                    if exp:
+                        self.reduced[vid] = o
             got = [list(m) for m in o.simulated.matched[: len(exp)]]
             if frags0:
                 matched_elsewhere += 1
@@ -102,6 +105,18 @@ class RemovalMonitor(Monitor):
                     self.res.probes["c09.sp_lay_rescaled.%s" % mtype] += 1
                 if abs((o.order_type.liability or 0) - (exp_liab or 0)) > 1e-9 * max(1, abs(exp_liab or 0)):
                     self.violate(self.P, "C09.sp-lay" if new else "C09.once", "moc-lay-liability", order=vid, before=liab0, after=o.order_type.liability, expected=exp_liab, removals=new, market_type=mtype)
+        # the reduction stays in force: the order's average matched price is that of its (reduced) fills, also after later fills
+        for vid, o in self.reduced.items():
+            if o.market_id != mid or not o.simulated.matched:
+                continue
+            tot = sum(m[2] for m in o.simulated.matched)
+            if tot <= 0:
+                continue
+            avg = sum(m[1] * m[2] for m in o.simulated.matched) / tot
+            if len(o.simulated.matched) > len(self.snap.get(vid, (None, []))[1]):
+                self.res.probes["c09.fill_after_reduction"] += 1
+            if abs(o.simulated.average_price_matched - avg) > 0.00501:
+                self.violate(self.P, "C09.reduce", "reduction-lost-from-average-price", order=vid, average_price_matched=o.simulated.average_price_matched, fills=[list(m) for m in o.simulated.matched], expected=round(avg, 4))
         if new and on_removed and matched_elsewhere:
             self.res.nontrivial = True
         if new and on_removed:
